@@ -26,15 +26,16 @@ from fractions import Fraction as F
 from vcheck import fmt_q, fmt_vec, fmt_ivec, fmt_crs, parse_out_crs, parse_out_vec
 import gen
 from props.common import account, oracle_run
+from props.mpi_common import run_mpi
 
 DRIVERS = ["mpi_solve"]
-MODEL = "dist"
+MODEL = "distsolve"
 MPIRUN = ["mpirun", "--allow-run-as-root", "--oversubscribe", "--bind-to", "none", "--mca", "mpi_yield_when_idle", "1", "-n"]
 TIMEOUT = 150
 ASSUMPTIONS = [
     "MPI runtime: progress / deadlock freedom / arrival order are not modelled; every mpirun runs under timeout",
     "the distributed solve runs at double (MPI datatypes); truthfulness compares the reported residual (a floating-point "
-    "recurrence) with the exactly recomputed true residual within a tested tolerance (1e-6 relative + 1e-12)",
+    "recurrence) with the exactly recomputed true residual within a tested tolerance (1e-6 relative + 1e-12; IDR(s) 1e-10)",
     "PMIS aggregation, repartitioning (merge) and the consolidation of the coarse problem are covered by the oracle runs only "
     "(no Coq model); ParMETIS/Scotch/PaStiX/Eigen-SparseLU are not installed",
     "the rank-lifted solver theorems (DistSolveProofs.v) are about CG and Richardson with abstract distributed preconditioner; "
@@ -171,20 +172,28 @@ def check_solve(line, out, np_, olines, fails, ctx):
         return fail("rank consistency: identical (iters, residual) on every rank", got=heads)
     h = re.findall(r"it=(\S+) res=(\S+) bits=(\S+)", heads[0])
     it, res = int(h[-1][0]), h[-1][1]
+    solver = c.kv.get("solver.type")
     # ---- truthfulness: exact true residual of the assembled solution vs reported residual
     if any(w in m.group(2) for m in ms for w in ("nan", "inf")):
         return fail("finite solution on every rank", got=[m.group(2)[:80] for m in ms])
     x = []
     for m in ms: x += parse_out_vec(m.group(2))
     if len(x) != c.n: return fail("solution slices cover the system", got=len(x))
-    if res in ("nan", "inf", "-inf"): return fail("finite residual", got=res)
-    solver = c.kv.get("solver.type")
+    if res in ("nan", "inf", "-inf"):
+        # divergence to overflow is tolerated only for the methods that carry no convergence claim (richardson with an
+        # over-interpolated cycle, preonly); rank consistency of the non-finite report was checked above
+        if solver in CONV_SOLVERS: return fail("convergence on an SPD M-matrix", got=dict(iters=it, res=res))
+        return
     if solver != "preonly":       # preonly reports no residual (returns 0)
-        tol = F(res) / 10**6 + F(1, 10**12)
+        # tested tolerance: 1e-6 relative + an absolute floor at rounding level (1e-12; IDR(s): 1e-10, its
+        # recurrence residual drifts from the true one by ~1e-12 on these systems)
+        tol = F(res) / 10**6 + (F(1, 10**10) if solver == "idrs" else F(1, 10**12))
         olines.append(("truth", "%s o.truth %s %s %s %s %s" % (c.cid + ".t", c.A, fmt_vec(c.f), fmt_vec(x), res, fmt_q(tol))))
     # ---- convergence on SPD M-matrices
     relax = c.kv.get("precond.relax.type") or c.kv.get("precond.type")
-    if solver in CONV_SOLVERS and (solver != "cg" or relax in SYM_RELAX):
+    # CG needs a symmetric preconditioner: symmetric smoother and npre == npost (relaxation class: always symmetric use)
+    sym = relax in SYM_RELAX and c.kv.get("precond.npre", "1") == c.kv.get("precond.npost", "1")
+    if solver in CONV_SOLVERS and (solver != "cg" or sym):
         ctx["stats"]["oracle_checks"] += 1
         if not (it < MAXITER and F(res) <= F(TOL) * F(101, 100)):
             fail("convergence on an SPD M-matrix", got=dict(iters=it, res=float(F(res))))
@@ -261,8 +270,8 @@ def run(ctx, cases_override=None):
     def work(np_):
         ls = groups[np_]
         shards = max(1, min(3 if np_ <= 4 else 1, len(ls) // 8))
-        impls[np_] = ctx["run_driver"](ctx["cpp"]["mpi_solve"], ls, env_extra={"OMP_NUM_THREADS": "1"},
-                                       prefix=MPIRUN + [str(np_)], timeout=TIMEOUT, shards=shards)
+        impls[np_] = run_mpi(ctx, ctx["cpp"]["mpi_solve"], ls, np_, MPIRUN, shards=shards, timeout=TIMEOUT,
+                             env={"OMP_NUM_THREADS": "1"})
     order = sorted(groups)
     batches = [[n for n in order if n <= 4], [n for n in order if 4 < n <= 6], [n for n in order if n > 6]]
     for batch in batches:
